@@ -47,7 +47,10 @@ RULE = ('HISTORIES: 2-4 calls (rmcp_ping / is_ipmc_accessible / send_and_receive
         'every ordered pair of the 24 shell specials, sampled long and non-ASCII strings, each as user and as '
         'password, over lan/lanplus raw commands and rmcp_ping (thorough: every ordered pair of printable ASCII); '
         'directed + seeded option cases (4 interface types, hosts, ports, 3 levels, ciphers None/0/\'0\'/n, no-auth, '
-        'targets None/0/addr, routings of depth 0..4, LUN 0..3, netfn 0..63, 1..40 raw bytes).  Reply side: every '
+        'targets None/0/addr, routings of depth 0..4, LUN 0..3, netfn 0..63, 1..40 raw bytes; rmcp_ping under every '
+        'privilege level x cipher None/0/\'0\'/3/\'17\'/254 x lan/lanplus/open x credentials / none / option-like '
+        'credentials, judged against -L / -C of the property text, -L may be absent only for ipmitool\'s default '
+        'ADMINISTRATOR).  Reply side: every '
         'length 0..80 in ipmitool\'s 16-per-line format, other wrappings/CRLF, every completion code 1..255 as a '
         'rsp= line, timeout/connection/device/long-password lines, seeded noise, return codes.  A case is distinct by '
         'its full input; it is non-trivial unless it repeats the baseline admin/secret command.')
@@ -57,6 +60,9 @@ ASSUMPTIONS = [
     'ipmitool\'s output format and its use of stderr for error lines are taken from its sources (Spec/IpmitoolPrint.lean), not from a running ipmitool',
     'py3dec_unic_bytes_fix (raw_unicode_escape) is modelled as the identity on code points: generated outputs contain no backslash-u escapes; int(x, 16) is modelled for ASCII input',
     'control flow of the builders / parser is hand-modelled (Model/Ipmitool.lean); string constants are regenerated from the source each run and the shape of every anchored method is checked by AST',
+    'ipmitool(1): "-L <privlvl> ... Default is ADMINISTRATOR" - a presence ping that leaves -L out at level ADMINISTRATOR is '
+    'accepted as carrying the configured level (Spec.Ipmitool.levelArgvD, Props.C19.ping_effective_level_cipher); no such '
+    'allowance for the cipher suite (ipmitool\'s built-in default differs between versions) or for raw requests',
     'histories: what rmcp_ping / is_ipmc_accessible return is not judged (the property names the command line and the '
     'reply of a raw request); the canned output a call of a history receives is " 00" / exit status 0 unless the step says otherwise',
     'host, port, serial device and interface options are interpolated unquoted by the code under test; the property quantifies over all strings only for user and password, so hosts/devices are drawn from the host-name / path alphabet',
@@ -287,7 +293,7 @@ def build_real(case, path='ipmitool'):
 
 
 def probe_variant():
-    """Which variant of the three repaired statements does the tree under test contain?"""
+    """Which variant of the four repaired places does the tree under test contain?"""
     base = {'op': 'raw', 'iface': 'lan', 'host': 'h', 'auth': ('a"b$c`d\\e', 'p'), 'target': None,
             'lun': 0, 'netfn': 6, 'raw': [1]}
     s = build_real(base)
@@ -298,7 +304,12 @@ def probe_variant():
     d = dict(base, auth=('u', 'p'), target=['r', 0x20, [[0x81, 0x20, 0]]])
     s = build_real(d)
     depth1 = s.startswith('ok ')
-    return '%d%d%d' % (escape, cnn, depth1)
+    # fixes/C19-5: does rmcp_ping pass the privilege level (unless ADMINISTRATOR) and the cipher?
+    s = build_real(dict(base, op='ping', auth=('u', 'p'), level=2, cipher=17))
+    s4 = build_real(dict(base, op='ping', auth=('u', 'p'), level=4, cipher=None))
+    ping_opts = s.startswith('ok ') and ' -L USER -C 17 ' in dec(s[3:]) and s4.startswith('ok ') and \
+        ' -L ' not in dec(s4[3:]) and ' -C ' not in dec(s4[3:])
+    return '%d%d%d%d' % (escape, cnn, depth1, ping_opts)
 
 
 # ---------------------------------------------------------------------------------------------
@@ -307,8 +318,9 @@ def probe_variant():
 def model_line(case, var, path):
     t = tgt_token(case.get('target'))
     if case['op'] == 'ping':
-        return 'ping %s %s %s %s %s %s' % (var, enc(path), enc(case['iface']), enc('%s' % (case['host'],)),
-                                           enc('%s' % (case.get('port', 623),)), auth_token(case.get('auth')))
+        return 'ping %s %s %s %s %s %d %s %s' % (var, enc(path), enc(case['iface']), enc('%s' % (case['host'],)),
+                                                 enc('%s' % (case.get('port', 623),)), case.get('level', 4),
+                                                 cipher_token(case.get('cipher')), auth_token(case.get('auth')))
     raw = lean.hexs(case['raw'])
     if case['iface'] in ('lan', 'lanplus'):
         return 'lan %s %s %s %s %s %d %s %s %s %d %d %s' % (
@@ -371,8 +383,16 @@ def twin_target(t):
 
 def twin_argv(case, path):
     if case['op'] == 'ping':
+        # property text: "… interface type, host, port, privilege level, cipher … appear as the corresponding
+        # options" for every start of the program.  This is the spelled-out form; ping_alternative() is the other
+        # admitted one (ipmitool(1): -L defaults to ADMINISTRATOR).
+        if case.get('level', 4) not in LEVEL_NAMES:
+            return None
         a = case.get('auth')
-        return [path, '-I', case['iface'], '-H', '%s' % case['host'], '-p', '%s' % case.get('port', 623)] + \
+        c = case.get('cipher')
+        return [path, '-I', case['iface'], '-H', '%s' % case['host'], '-p', '%s' % case.get('port', 623),
+                '-L', LEVEL_NAMES[case.get('level', 4)]] + \
+            (['-C', '%s' % (c,)] if c is not None else []) + \
             (['-U', a[0], '-P', a[1]] if a is not None else ['-A', 'NONE']) + ['session', 'info', 'all']
     tg = twin_target(case.get('target'))
     if tg is None:
@@ -414,6 +434,24 @@ def normalise(argv):
     return out
 
 
+def ping_alternative(case, expected):
+    """ipmitool(1): "-L <privlvl> … Default is ADMINISTRATOR" - a presence ping at that level may leave the option
+    out: the started program runs at the configured level either way (Lean: Spec.Ipmitool.levelArgvD,
+    Props.C19.ping_effective_level_cipher).  -> the vector without `-L ADMINISTRATOR`, or None."""
+    if case.get('op') == 'ping' and expected is not None and case.get('level', 4) == 4 \
+            and expected[7:9] == ['-L', 'ADMINISTRATOR']:
+        return expected[:7] + expected[9:]
+    return None
+
+
+def pick_expected(case, expected, got):
+    """the admitted vector to judge `got` against: the one without -L when the program was started without it"""
+    alt = ping_alternative(case, expected)
+    if alt is not None and got.get('argv') is not None and got['argv'][7:8] != ['-L']:
+        return alt
+    return expected
+
+
 def _matches(got, expected):
     return (not got.get('raised')) and got.get('argv') is not None and normalise(got['argv']) == normalise(expected)
 
@@ -427,6 +465,8 @@ def signature(case, expected, got, rerun=None):
         plain = dict(case, auth=('u', 'p'))
         got_plain = rerun(plain)
         exp_plain = twin_argv(plain, expected[0])
+        if exp_plain is not None:
+            exp_plain = pick_expected(plain, exp_plain, got_plain)
         if exp_plain is not None and _matches(got_plain, exp_plain):
             txt = a[0] + a[1]
             if any(c in DQ_SPECIAL for c in txt):
@@ -449,9 +489,11 @@ def signature(case, expected, got, rerun=None):
         if e != g:
             prev = [x for x in ne[:k + 1] if isinstance(x, str) and (x.startswith('-') or x == 'raw')]
             opt = prev[-1] if prev else 'argv0'
+            pre = 'C19:ping:argv' if case.get('op') == 'ping' and (e in ('-L', '-C') or opt in ('-L', '-C')) \
+                else 'C19:argv'
             if isinstance(e, str) and e.startswith('-') and e not in [x for x in na if isinstance(x, str)]:
-                return 'C19:argv:%s:missing' % e
-            return 'C19:argv:%s:differs' % opt
+                return '%s:%s:missing' % (pre, e)
+            return '%s:%s:differs' % (pre, opt)
     return 'C19:argv:differs'
 
 
@@ -540,12 +582,19 @@ def option_cases(ctx, rng):
         cases.append(dict(BASE, op='ping', iface=iface))
         cases.append(dict(BASE, op='ping', iface=iface, auth=None))
     cases.append(dict(BASE, op='ping', iface='serial-terminal'))
+    # the presence ping under every privilege level x cipher x interface x with / without credentials
+    for iface in ('lan', 'lanplus', 'open'):
+        for lv in (2, 3, 4):
+            for c in (None, 0, '0', 3, '17', 254):
+                for a in (('admin', 'secret'), None, ('-L', '-C 3')):
+                    if (lv, c, a) != (4, None, ('admin', 'secret')):
+                        cases.append(dict(BASE, op='ping', iface=iface, level=lv, cipher=c, auth=a))
     for sp, bd in (('/dev/tty2', 115200), ('/dev/ttyUSB0', 9600), ('/dev/serial/by-id/usb-x_1-if00', '38400')):
         cases.append(dict(BASE, iface='serial-terminal', serial_port=sp, baud=bd))
     n = 120 if ctx.tier == 'quick' else 3000
     for _ in range(n):
         iface = rng.choice(['lan', 'lanplus', 'lan', 'lanplus', 'open', 'serial-terminal'])
-        c = dict(op='raw', iface=iface, host=rand_host(rng), port=rng.choice([623, 623, rng.randrange(1, 65536)]),
+        c = dict(op='raw' if rng.random() < 0.8 else 'ping', iface=iface, host=rand_host(rng), port=rng.choice([623, 623, rng.randrange(1, 65536)]),
                  level=rng.choice([2, 3, 4]), cipher=rng.choice([None, None, 0, '0', 3, 17, '17', 254]),
                  auth=rng.choice([None, ('admin', 'secret'), ('root', 'pw 1'), ('', ''), ('Admin_2', 'x.y-z')]),
                  target=rand_target(rng), lun=rng.randrange(4), netfn=rng.randrange(64),
@@ -604,6 +653,7 @@ def judge_shell(ctx, case, got, expected, words, model_cmd, label, quiet=False, 
                         'back-end cannot address', jcase(case), expected='an exception', observed=got['cmd'])
             violated = True
     else:
+        expected = pick_expected(case, expected, got)
         ok = got['argv'] is not None and normalise(got['argv']) == normalise(expected) and not got['raised']
         if not ok:
             def rerun(c):
@@ -1357,7 +1407,7 @@ def run(ctx):
     first = 0
     try:
         var = probe_variant()
-        ctx.extra['variant(escape,cipherNotNone,depth1)'] = var
+        ctx.extra['variant(escape,cipherNotNone,depth1,pingOpts)'] = var
         rng = ctx.rng('c19')
         # 0. histories on one object (in pristine child processes)
         run_histories(ctx, var)
@@ -1449,7 +1499,7 @@ def replay(ctx, v):
                 got = res['steps'][k] if k < len(res['steps']) else None
                 if got is None:
                     continue
-                exp = expected_argv(effs[k][0], res['stub'])
+                exp = pick_expected(effs[k][0], expected_argv(effs[k][0], res['stub']), got)
                 print('    program got  : %s%s' % (None if got['argv'] is None else [ascii(x) for x in got['argv'][1:]],
                                                   '' if not got['raised'] else '  raised ' + got['raised']))
                 print('    must receive : %s' % (None if exp is None else [ascii(x) for x in exp[1:]]))
@@ -1475,7 +1525,7 @@ def replay(ctx, v):
         c = unjcase(case)
         with work:
             got = run_real(c, work.stub)
-        expected = twin_argv(c, work.stub)
+        expected = pick_expected(c, twin_argv(c, work.stub), got)
         print('case: %s' % {k: (ascii(x) if isinstance(x, str) else x) for k, x in c.items()})
         print('  command line : %s' % (ascii(got['cmd']) if got['cmd'] is not None else '(none: %s)' % got['raised']))
         print('  program got  : %s (sh exit status %s)' % (
